@@ -843,6 +843,38 @@ def composite_name_parsers(repo, module="onnx_ir.serde"):
     return out
 
 
+def _inner_formats(m, f, want_fields=False):
+    """(inner, nodes): `inner` maps a local of the top-level function `f` bound to an f-string `{A}<s1>{B}` to <s1> (or to
+    (<s1>, A, B)); `nodes` are the nodes in which an outer f-string `{local}<s2>{C}` may stand - the function itself and the
+    module's private helpers that receive the local as an argument (under the parameter's name)."""
+    inner = {}
+    for n in ast.walk(f.node):
+        if isinstance(n, ast.Assign) and isinstance(n.value, ast.JoinedStr) and isinstance(n.targets[0], ast.Name) and len(n.value.values) == 3 \
+                and isinstance(n.value.values[1], ast.Constant) and isinstance(n.value.values[0], ast.FormattedValue) and isinstance(n.value.values[2], ast.FormattedValue):
+            v = n.value.values
+            inner[n.targets[0].id] = (v[1].value, norm(v[0].value), norm(v[2].value)) if want_fields else v[1].value
+    nodes = list(ast.walk(f.node))
+    by_name = {g.node.name: g for g in m.all_funcs if g.parent is None and g.cls is None and isinstance(g.node, (ast.FunctionDef, ast.AsyncFunctionDef))}
+    for c in list(nodes):
+        if not (isinstance(c, ast.Call) and isinstance(c.func, ast.Name) and c.func.id in by_name and by_name[c.func.id] is not f):
+            continue
+        g = by_name[c.func.id]
+        a = g.node.args
+        pos = [x.arg for x in a.posonlyargs + a.args]
+        passed = {}
+        for i, x in enumerate(c.args):
+            if isinstance(x, ast.Name) and x.id in inner and i < len(pos):
+                passed[pos[i]] = inner[x.id]
+        for k in c.keywords:
+            if k.arg and isinstance(k.value, ast.Name) and k.value.id in inner:
+                passed[k.arg] = inner[k.value.id]
+        if passed and all(inner.get(k, v) == v for k, v in passed.items()):
+            inner.update(passed)
+            nodes.extend(ast.walk(g.node))
+    return inner, nodes
+
+
+
 def composite_name_order(repo, module="onnx_ir.serde"):
     """[(parser function, offending split call, first separator, second separator)]: the composite name is written
     `{A}<s1>{B}<s2>{C}` (an f-string with <s1> bound to a local that is the first field of an f-string with <s2>); a parser
@@ -854,13 +886,8 @@ def composite_name_order(repo, module="onnx_ir.serde"):
             continue
         if f.parent is not None:
             continue  # nested helpers are scanned with the function that defines them (closures over the inner name)
-        inner = {}
-        for n in ast.walk(f.node):
-            if isinstance(n, ast.Assign) and isinstance(n.value, ast.JoinedStr) and isinstance(n.targets[0], ast.Name):
-                consts = [v.value for v in n.value.values if isinstance(v, ast.Constant)]
-                if len(consts) == 1 and len(n.value.values) == 3:
-                    inner[n.targets[0].id] = consts[0]
-        for n in ast.walk(f.node):
+        inner, nodes = _inner_formats(m, f)
+        for n in nodes:
             if isinstance(n, ast.JoinedStr) and len(n.values) == 3 and isinstance(n.values[0], ast.FormattedValue) and isinstance(n.values[0].value, ast.Name) \
                     and n.values[0].value.id in inner and isinstance(n.values[1], ast.Constant):
                 order.append((inner[n.values[0].value.id], n.values[1].value))
@@ -932,12 +959,8 @@ def _composite_formats(m):
     for f in m.all_funcs:
         if isinstance(f.node, ast.Lambda) or f.parent is not None:
             continue
-        inner = {}
-        for n in ast.walk(f.node):
-            if isinstance(n, ast.Assign) and isinstance(n.value, ast.JoinedStr) and isinstance(n.targets[0], ast.Name) and len(n.value.values) == 3 \
-                    and isinstance(n.value.values[1], ast.Constant) and isinstance(n.value.values[0], ast.FormattedValue) and isinstance(n.value.values[2], ast.FormattedValue):
-                inner[n.targets[0].id] = (n.value.values[1].value, norm(n.value.values[0].value), norm(n.value.values[2].value))
-        for n in ast.walk(f.node):
+        inner, nodes = _inner_formats(m, f, want_fields=True)
+        for n in nodes:
             if isinstance(n, ast.JoinedStr) and len(n.values) == 3 and isinstance(n.values[0], ast.FormattedValue) and isinstance(n.values[0].value, ast.Name) \
                     and n.values[0].value.id in inner and isinstance(n.values[1], ast.Constant):
                 s1, a, b = inner[n.values[0].value.id]
@@ -1480,6 +1503,11 @@ def identity_keyed_positions(repo, modules: set[str]):
                         if isinstance(p_, ast.For):
                             gens.append((p_.target, p_.iter))
                         p_ = getattr(p_, "_parent", None)
+                if isinstance(key, ast.Name):
+                    # `k = id(x)` bound once in the function, then `table[k] = …`
+                    binds = [a.value for a in own_nodes(f.node) if isinstance(a, ast.Assign) and any(isinstance(t, ast.Name) and t.id == key.id for t in a.targets)]
+                    if len(binds) == 1:
+                        key = binds[0]
                 if not (isinstance(key, ast.Call) and dotted_of(key.func) == "id" and len(key.args) == 1 and isinstance(key.args[0], ast.Name)) or not gens:
                     continue
                 kv = key.args[0].id
@@ -1579,21 +1607,22 @@ def rule_s17(ctx, rid: str, in_scope, consequence: str, floor: int = 10):
 # ----------------------------------------------------------------------------------------------------------------- S18
 def ref_attr_guards(f: FuncInfo):
     """Shared rule S18: [(dispatch node, guarded)] - in a function that dispatches on `attr.type == AttributeType.GRAPH / GRAPHS` and
-    then reads `attr.value` (a reference attribute has none), every dispatch is reached only for attributes that are not
+    then reads `attr.value` / `attr.as_graph()` / `attr.as_graphs()` (a reference attribute has no value: iterating None or the typed
+    accessor raises TypeError), every dispatch is reached only for attributes that are not
     references: an `is_ref()` test that leaves the iteration (`continue`) or encloses the dispatch precedes it."""
     out = []
     for n in own_nodes(f.node):
         if not isinstance(n, ast.If):
             continue
         k = _test_kind(n.test)
-        if not k or not any(isinstance(x, ast.Attribute) and x.attr == "value" for st in n.body for x in ast.walk(st)):
+        if not k or not any(isinstance(x, ast.Attribute) and x.attr in ("value", "as_graph", "as_graphs") for st in n.body for x in ast.walk(st)):
             continue
         p = getattr(n, "_parent", None)
         if isinstance(p, ast.If) and p.orelse == [n] and _test_kind(p.test):
             continue  # an elif of a chain that was counted at its head
         guarded = False
         child, p_ = n, getattr(n, "_parent", None)
-        while p_ is not None and p_ is not f.node and not guarded:
+        while p_ is not None and not guarded:
             if isinstance(p_, ast.If) and any(isinstance(x, ast.Call) and isinstance(x.func, ast.Attribute) and x.func.attr == "is_ref" for x in ast.walk(p_.test)):
                 guarded = True
             for fld in ("body", "orelse"):
@@ -1603,6 +1632,8 @@ def ref_attr_guards(f: FuncInfo):
                         if isinstance(st, ast.If) and any(isinstance(y, (ast.Continue, ast.Return, ast.Raise)) for y in st.body) \
                                 and any(isinstance(x, ast.Call) and isinstance(x.func, ast.Attribute) and x.func.attr == "is_ref" for x in ast.walk(st.test)):
                             guarded = True
+            if p_ is f.node:
+                break
             child, p_ = p_, getattr(p_, "_parent", None)
         out.append((n, guarded))
     return out
